@@ -16,7 +16,7 @@ import logging
 from sfv.framework import Ctx, Property
 from sfv.rt.hexs import hx, unhx
 from sfv.rt.sfctx import make_context
-from sfv.rt.shfake import Hang, MiniConnector, kill_leftovers, run_watchdog
+from sfv.rt.shfake import in_scratch_cwd, Hang, MiniConnector, kill_leftovers, run_watchdog
 from sfv.rt.trees import diff, make_tree, rand_name, resolved, snapshot
 from sfv.translate import cmdtmpl
 
@@ -36,6 +36,30 @@ class WrapMini(ConnectorWrapper):
         return "{}"
 
 
+class GateConnector(MiniConnector):
+    """a MiniConnector whose FIRST copy towards it waits for `release` (set by the harness): holds a transfer in the middle of its copy"""
+
+    def __init__(self, *a, **kw):
+        super().__init__(*a, **kw)
+        self.entered = asyncio.Event()
+        self.release = asyncio.Event()
+        self.gated = False
+
+    async def _gate(self):
+        if not self.gated:
+            self.gated = True
+            self.entered.set()
+            await self.release.wait()
+
+    async def copy_local_to_remote(self, src, dst, locations, read_only=False):
+        await self._gate()
+        await super().copy_local_to_remote(src, dst, locations, read_only)
+
+    async def copy_remote_to_remote(self, src, dst, locations, source_location, source_connector=None, read_only=False):
+        await self._gate()
+        await super().copy_remote_to_remote(src, dst, locations, source_location, source_connector, read_only)
+
+
 def tame_name(rng) -> str:
     return "".join(rng.choice("abcdefXYZ0123_") for _ in range(rng.randint(1, 8)))
 
@@ -47,7 +71,7 @@ class C22(Property):
     props_files = ["SFV/Props/C22.lean"]
     drivers = ["Drivers/C22.lean"]
     translators = [cmdtmpl.generate]
-    quick_budget_s = 600
+    quick_budget_s = 900
     rule = ("random trees (0..30 entries, empty files and directories, binary contents, names with blanks, quotes, unicode, leading dashes, in-tree "
             "symlinks; up to 1 MiB files in the thorough tier) are transferred with the real DefaultDataManager.transfer_data between every "
             "pair of {local, fake remote A location 0/1, fake remote B} (persistent-sh BaseConnector subclasses rooted in private directories), "
@@ -77,7 +101,11 @@ class C22(Property):
         logging.getLogger("streamflow").setLevel(logging.ERROR)
         self.gen = getattr(self, "gen", 0) + 1
         self.n = 0
-        self.table = cmdtmpl.table(os.environ.get("SFV_REPO", "/repo"))
+        try:
+            self.table = cmdtmpl.table(os.environ.get("SFV_REPO", "/repo"))
+        except Exception as e:  # noqa: BLE001  (the framework has already recorded the broken extractor)
+            ctx.notes.append(f"command-template table unavailable: {e}")
+            self.table = []
 
     def location(self, kind: str, mounts: dict | None = None) -> ExecutionLocation:
         if kind == "local":
@@ -137,7 +165,7 @@ class C22(Property):
                     except Exception:  # noqa: BLE001
                         pass
         try:
-            run_watchdog(go, 75)
+            run_watchdog(go, 30)
             obs["status"] = "ok"
         except Hang as e:
             obs["status"] = "hang"
@@ -170,6 +198,92 @@ class C22(Property):
         kill_leftovers()
         shutil.rmtree(base, ignore_errors=True)
         return obs
+
+    def concurrent_case(self, ctx: Ctx, case: dict) -> None:
+        """two transfers of the same source to the same destination location, the second started while the first is in the middle of
+        its copy (gated): the second must not use the first copy before it is available"""
+        import random
+        rng = random.Random(case["seed"])
+        self.n += 1
+        base = os.path.join(ctx.scratch, f"cc{self.gen}_{self.n}")
+        src_root, dst_root = os.path.join(base, "S"), os.path.join(base, "D")
+        os.makedirs(src_root)
+        os.makedirs(dst_root)
+        src = os.path.join(src_root, "data_" + tame_name(rng))
+        if case["src_is_dir"]:
+            make_tree(rng, src, max_entries=10, nasty=0.3, symlinks=False, long_names=False)
+            with open(os.path.join(src, "always"), "wb") as f:
+                f.write(rng.randbytes(3000))
+        else:
+            with open(src, "wb") as f:
+                f.write(rng.randbytes(5000))
+        d1, d2 = os.path.join(dst_root, "first_" + tame_name(rng)), os.path.join(dst_root, "second_" + tame_name(rng))
+        want = resolved(snapshot(src), src)
+        context = make_context(base)
+        gate = GateConnector("remB")
+        conns = {"__LOCAL__": LocalConnector("__LOCAL__", base), "remA": MiniConnector("remA", locations=("loc0", "loc1")), "remB": gate}
+        for k, v in conns.items():
+            context.deployment_manager.deployments_map[k] = v
+        sloc, dloc = self.location(case["src_kind"]), self.location("remB0")
+        obs = {}
+
+        async def go():
+            dm = context.data_manager
+            try:
+                dm.register_path(location=sloc, path=src, relpath=src, data_type=DataType.PRIMARY)
+                t1 = asyncio.ensure_future(dm.transfer_data(src_location=sloc, src_path=src, dst_locations=[dloc], dst_path=d1, writable=False))
+                await asyncio.wait({asyncio.ensure_future(gate.entered.wait()), t1}, timeout=30, return_when=asyncio.FIRST_COMPLETED)
+                # the first transfer is now inside its copy; start the second one towards the same location
+                t2 = asyncio.ensure_future(dm.transfer_data(src_location=sloc, src_path=src, dst_locations=[dloc], dst_path=d2, writable=True))
+                await asyncio.sleep(0.4)
+                obs["second_done_before_first_copy"] = t2.done()
+                gate.release.set()
+                res = await asyncio.gather(t1, t2, return_exceptions=True)
+                obs["errors"] = [repr(r)[:150] for r in res if isinstance(r, BaseException)]
+            finally:
+                gate.release.set()
+                for c in conns.values():
+                    try:
+                        await c.undeploy(False)
+                    except Exception:  # noqa: BLE001
+                        pass
+        try:
+            run_watchdog(go, 90)
+            obs["status"] = "ok"
+        except Hang as e:
+            obs["status"] = "hang: " + str(e)
+        except Exception as e:  # noqa: BLE001
+            obs["status"] = f"error {type(e).__name__}: {str(e)[:150]}"
+        diffs = {}
+        for name, d in (("first", d1), ("second", d2)):
+            got = snapshot(os.path.realpath(d)) if os.path.lexists(d) else {"": ("missing",)}
+            got = resolved(got, os.path.realpath(d)) if got.get("", ("",))[0] != "missing" else got
+            diffs[name] = diff(want, got)
+            try:
+                locs = context.data_manager.get_data_locations(path=d, deployment=dloc.deployment, location_name=dloc.name)
+                obs[name + "_registered"] = [(l.data_type.name, l.available.is_set()) for l in locs]
+            except Exception as e:  # noqa: BLE001
+                obs[name + "_registered"] = f"error {e!r}"
+        for k in conns:
+            context.deployment_manager.deployments_map.pop(k, None)
+        try:
+            run_watchdog(context.close, 10)
+        except Exception:  # noqa: BLE001
+            pass
+        kill_leftovers()
+        shutil.rmtree(base, ignore_errors=True)
+        route = f"{case['src_kind'].rstrip('01')}->remB x2 concurrent"
+        ctx.case({"op": "concurrent-transfer", "route": route, "dir": case["src_is_dir"], "status": obs["status"], "diffs": {k: v[:1] for k, v in diffs.items()},
+                  "second_done_before_first_copy": obs.get("second_done_before_first_copy")}, ("concurrent", case["seed"], case["src_kind"], case["src_is_dir"]),
+                 f"concurrent:{case['src_kind'].rstrip('01')}->remB")
+        replay = {"op": "concurrent", "case": case}
+        detail = f"{route}: status {obs['status']}, errors {obs.get('errors')}, first {diffs['first'][:2]}, second {diffs['second'][:2]}, observation {obs}"
+        if obs["status"] != "ok" or obs.get("errors"):
+            ctx.fail("transfer:concurrent:failed-or-hung", detail, replay)
+        elif diffs["second"] or diffs["first"]:
+            ctx.fail("transfer:concurrent:destination-differs-from-source", detail, replay)
+        elif not all(isinstance(obs[n + "_registered"], list) and any(av for _, av in obs[n + "_registered"]) for n in ("first", "second")):
+            ctx.fail("transfer:concurrent:destination-not-registered-as-available", detail, replay)
 
     def judge(self, ctx: Ctx, case: dict, obs: dict) -> None:
         route = f"{case['src_kind'].rstrip('01')}->{case['dst_kind'].rstrip('01')}"
@@ -214,10 +328,14 @@ class C22(Property):
     def gen_case(self, rng, big_ok: bool) -> dict:
         nasty_top = rng.random() < 0.35
         src_kind, dst_kind = rng.choice(KINDS), rng.choice(KINDS)
+        src_name = rand_name(rng, 0.9) if nasty_top and rng.random() < 0.6 else tame_name(rng)
+        dst_name = rand_name(rng, 0.9) if nasty_top and rng.random() < 0.6 else tame_name(rng)
+        if not nasty_top and rng.random() < 0.25:
+            # a rename whose new name ends with / starts with / contains the old one (basename comparisons must be exact)
+            dst_name = rng.choice(["old_" + src_name, "my-" + src_name, src_name + ".bak", "x" + src_name + "y"])
         return {"seed": rng.randrange(1 << 30), "src_kind": src_kind, "dst_kind": dst_kind, "writable": rng.random() < 0.5,
                 "dst_exists_dir": rng.random() < 0.35, "src_is_dir": rng.random() < 0.7,
-                "src_name": rand_name(rng, 0.9) if nasty_top and rng.random() < 0.6 else tame_name(rng),
-                "dst_name": rand_name(rng, 0.9) if nasty_top and rng.random() < 0.6 else tame_name(rng),
+                "src_name": src_name, "dst_name": dst_name,
                 "entries": rng.choice([0, 3, 12, 30]), "big": (1 << 20) if big_ok and rng.random() < 0.1 else None}
 
     # ---- the decision table of get_remote_to_remote_write_command vs the model -----------------------------------------
@@ -228,14 +346,15 @@ class C22(Property):
         os.makedirs(root, exist_ok=True)
         conn = MiniConnector("tbl")
         loc = ExecutionLocation(name="loc0", deployment="tbl", local=False)
-        combos = [(d, s, e) for d in (0, 1) for s in (0, 1) for e in (0, 1)]
+        # base_eq: 1 = same basename, 0 = unrelated basename, 2 = destination basename ENDS WITH the source basename, 3 = starts with it
+        combos = [(d, s, e) for d in (0, 1) for s in (0, 1) for e in (0, 1, 2, 3)]
         results = []
 
         async def go():
             try:
                 for i, (dst_is_dir, src_is_dir, base_eq) in enumerate(combos):
                     sbase = tame_name(rng)
-                    dbase = sbase if base_eq else tame_name(rng) + "_d"
+                    dbase = {1: sbase, 0: tame_name(rng) + "_d", 2: "old_" + sbase, 3: sbase + ".bak"}[base_eq]
                     sdir = os.path.join(root, f"s{i}")
                     ddir = os.path.join(root, f"d{i}")
                     os.makedirs(sdir)
@@ -270,6 +389,7 @@ class C22(Property):
             ctx.case({"op": "rrwc", "dst_is_dir": dst_is_dir, "src_is_dir": src_is_dir, "cmd": real}, ("rrwc", dst_is_dir, src_is_dir, sbase == os.path.basename(dst)), "rrwc-table")
         return lines, expect, meta
 
+    @in_scratch_cwd
     def explore(self, ctx: Ctx) -> None:
         from sfv.rt.shfake import limit_failures
         limit_failures(ctx)
@@ -288,8 +408,15 @@ class C22(Property):
             {"seed": 2, "src_kind": "local", "dst_kind": "remA0", "writable": True, "dst_exists_dir": True, "src_is_dir": True, "src_name": "srcdir", "dst_name": "do$HOME", "entries": 5, "big": None},
             {"seed": 3, "src_kind": "local", "dst_kind": "remA0", "writable": True, "dst_exists_dir": False, "src_is_dir": True, "src_name": "srcdir", "dst_name": 'q"uote', "entries": 5, "big": None},
             {"seed": 4, "src_kind": "remA0", "dst_kind": "remB0", "writable": False, "dst_exists_dir": False, "src_is_dir": False, "src_name": "a b", "dst_name": "plain", "entries": 0, "big": None},
+            # renames whose new name ends with the old one, between two different remote locations, destination absent
+            {"seed": 5, "src_kind": "remA0", "dst_kind": "remB0", "writable": True, "dst_exists_dir": False, "src_is_dir": True, "src_name": "input", "dst_name": "old_input", "entries": 6, "big": None},
+            {"seed": 6, "src_kind": "remA0", "dst_kind": "remA1", "writable": True, "dst_exists_dir": False, "src_is_dir": False, "src_name": "data.bin", "dst_name": "metadata.bin", "entries": 0, "big": None},
+            {"seed": 7, "src_kind": "remB0", "dst_kind": "remA0", "writable": False, "dst_exists_dir": False, "src_is_dir": True, "src_name": "input", "dst_name": "my-input", "entries": 4, "big": None},
         ]
-        n = 150 if big else 18
+        for sk in (["local", "remA0"] * (4 if big else 1)):
+            for is_dir in (True, False):
+                self.concurrent_case(ctx, {"seed": rng.randrange(1 << 30), "src_kind": sk, "src_is_dir": is_dir})
+        n = 150 if big else 14
         cases = corpus + [self.gen_case(rng, big and ctx.tier == "thorough") for _ in range(n)]
         for case in cases:
             if ctx.out_of_time():
@@ -304,10 +431,14 @@ class C22(Property):
         ctx.extra["copy_route_templates"] = {r["lean"]: ("quoted" if r["quoted"] else "NOT-quoted") + " " + r["text"] for r in self.table
                                              if r["op"] in ("get_local_to_remote_destination", "get_remote_to_remote_write_command", "copy_same_connector", "tar_commands")}
 
+    @in_scratch_cwd
     def replay(self, ctx: Ctx, data) -> None:
         self._setup(ctx)
         r = data.get("replay") or {}
-        if r.get("op") == "transfer":
+        if r.get("op") == "concurrent":
+            self.concurrent_case(ctx, r["case"])
+            print(ctx.samples[-1] if ctx.samples else "")
+        elif r.get("op") == "transfer":
             obs = self.one_transfer(ctx, r["case"])
             for k, v in obs.items():
                 print(f"{k:18s}: {v}")
